@@ -1,8 +1,11 @@
 import MjProof.Lemmas.LinAlg
 import MjProof.Lemmas.LinAlgChol
+import MjProof.Lemmas.LinAlgCholUpd
 import MjProof.Lemmas.LinAlgBand
 import MjProof.Lemmas.Sparse
 import MjProof.Lemmas.SparseD2S
+import MjProof.Lemmas.SparseCompress
+import MjProof.Lemmas.SparseTranspose
 import MjProof.Lemmas.LinAlgCert
 /-
 C23  Linear algebra routines agree with their definitions.
@@ -85,9 +88,27 @@ theorem cholFactor_cholSolve_solves (n : Nat) (A : Vector ℝ (n * n)) (mindiag 
   · rw [hsym i j, ← hgram j i h hj]
     apply Finset.sum_congr rfl; intro k _; ring
 
-/-- non-vacuity: the 1×1 matrix `[4]` with `mindiag = 1e-15` is factorised with full rank -/
+/-- non-vacuity: the 1×1 matrix `[4]` with `mindiag = 1` is factorised with full rank -/
 example : (cholFactor 1 (#v[(4 : ℝ)] : Vector ℝ (1 * 1)) 1).2 = 1 := by
   simp [cholFactor, Nat.fold, cholStep, at2, set2, cholColumn, forRange]
+
+/-- **cholUpdate_eq_refactor_partial.**  For every `n`, every matrix `L` with non-zero diagonal, every vector `x`
+and both signs: if `mju_cholUpdate` reports rank `n` (no pivot `Lkk² ± xk²` fell below `mjMINVAL = 1e-15`), the lower
+triangle `L'` of the overwritten matrix satisfies `L' L'ᵀ = L Lᵀ ± x xᵀ` — it is a Cholesky factor of the updated
+matrix, i.e. what a refactorisation would have to reproduce.
+*Partial*: equality with the factor computed by `mju_cholFactor` additionally needs uniqueness of the Cholesky
+factor with positive diagonal (not proved); the rank-loss branch is covered by the correspondence only. -/
+theorem cholUpdate_eq_refactor_partial (n : Nat) (L : Vector ℝ (n * n)) (x : Vector ℝ n) (plus : Bool)
+    (hdiag : ∀ c < n, mget L c c ≠ 0) (hrank : (cholUpdate n L x plus).2.2 = n)
+    (i j : Nat) (hi : i < n) (hj : j < n) :
+    ∑ c ∈ range n, lower (cholUpdate n L x plus).1 i c * lower (cholUpdate n L x plus).1 j c
+      = ∑ c ∈ range n, lower L i c * lower L j c + (if plus then 1 else -1) * (vget x i * vget x j) :=
+  cholUpdate_gram L x plus hdiag hrank i j hi hj
+
+/-- non-vacuity: updating the 1×1 factor `[2]` with `x = [1]` keeps rank 1 -/
+example : (cholUpdate 1 (#v[(2 : ℝ)] : Vector ℝ (1 * 1)) #v[1] true).2.2 = 1 := by
+  simp [cholUpdate, Nat.fold, cholUpdStep, at2, set2, cholUpdCol, cholUpdX, forRange]
+  norm_num
 
 /-! ### band-dense storage -/
 
@@ -210,6 +231,100 @@ theorem dense2sparse_sparse2dense {nr nc cap nnz : Nat} (p : Pat nr nc cap) (hnd
         denseOf q (dense2sparse (sparse2dense p mat) init).res a b = denseOf p mat a b := by
   obtain ⟨q, h1, h2, h3, -, hrep⟩ := dense2sparse_pat (sparse2dense p mat) hnnz hcap init
   exact ⟨q, h1, h2, h3, fun a b ha hb => by rw [hrep a b ha hb, sparse2dense_eq p hnd]⟩
+
+/-- **compressSparse preserves the represented matrix.**  For a pattern whose rows are stored in increasing
+address order without overlap (`rowadr[r] + rownnz[r] ≤ rowadr[r+1]`; gaps allowed — e.g. the uncompressed layout)
+and `nr > 0`: `mju_compressSparse` performs only in-range accesses (the model returns `some`), the new rows are
+contiguous from address 0 (`rowadr[r] = Σ_{r'<r} rownnz[r']`), the return value is the total count, and every row
+represents exactly its kept entries: all entries when `minval < 0`, the entries with `|v| > minval` otherwise. -/
+theorem compressSparse_preserves {nr nc cap : Nat} (p : Pat nr nc cap) (mat : Vector ℝ cap) (minval : ℝ)
+    (hord : ∀ r, r + 1 < nr → nget p.rowadr r + nget p.rownnz r ≤ nget p.rowadr (r + 1)) (hnr : 0 < nr) :
+    ∃ out ret, compressSparse { mat := mat, rownnz := p.rownnz, rowadr := p.rowadr, colind := p.colind } minval
+        = some (out, ret) ∧
+      ret = ∑ r ∈ range nr, nget out.rownnz r ∧
+      ∀ r, r < nr →
+        nget out.rowadr r = ∑ r' ∈ range r, nget out.rownnz r' ∧
+        ∀ c, denseRaw out.rownnz out.rowadr out.colind out.mat r c
+          = ∑ k ∈ range (nget p.rownnz r),
+              if nget p.colind (nget p.rowadr r + k) = c ∧ ¬ (0 ≤ minval ∧ |vget mat (nget p.rowadr r + k)| ≤ minval)
+              then vget mat (nget p.rowadr r + k) else 0 := by
+  obtain ⟨out, ret, h1, h2, h3⟩ := compressSparse_spec (decide ((MjNum.lit 0 : ℝ) ≤ minval)) minval p mat hord hnr rfl
+  have hsum : ∀ m, m ≤ nr → newAdr (decide ((MjNum.lit 0 : ℝ) ≤ minval)) minval p mat m
+      = ∑ r' ∈ range m, nget out.rownnz r' := by
+    intro m hm
+    unfold newAdr
+    apply Finset.sum_congr rfl
+    intro r' hr'; simp at hr'
+    exact ((h3 r' (by omega)).2.1).symm
+  refine ⟨out, ret, h1, by rw [h2, hsum nr le_rfl], ?_⟩
+  intro r hr
+  obtain ⟨a1, _, a3⟩ := h3 r hr
+  refine ⟨by rw [a1, hsum r (by omega)], ?_⟩
+  intro c
+  rw [a3 c]
+  unfold denseKept keptPart keepEntry
+  apply Finset.sum_congr rfl
+  intro k _
+  have e : ((decide ((MjNum.lit 0 : ℝ) ≤ minval)) = true) = (0 ≤ minval) := by simp [MjNum.lit]
+  simp only [e]
+
+/-- **transposeSparse = dense transpose.**  For a pattern addressed from `rowadr[0] = 0` (the routine addresses
+`mat` / `colind` relative to `rowadr[0]`), `nr, nc > 0` and an output capacity of at least the number of stored
+entries: `mju_transposeSparse` performs only in-range accesses, its output rows are contiguous from address 0,
+row `c` of the output represents column `c` of the input (`denseRaw out c r = denseOf p mat r c`), and the column
+indices of every output row are valid (`< nr`) and in non-decreasing order (increasing when the input rows have
+distinct columns). -/
+theorem transposeSparse_eq_dense {nr nc cap capT : Nat} (p : Pat nr nc cap) (mat : Vector ℝ cap)
+    (hnr : 0 < nr) (hnc : 0 < nc) (hoff : nget p.rowadr 0 = 0)
+    (hcapT : ∑ r ∈ range nr, nget p.rownnz r ≤ capT) (out : TrOut ℝ nc capT) :
+    ∃ out', transposeSparse mat p.rownnz p.rowadr p.colind nc out = some out' ∧
+      ∀ c, c < nc →
+        nget out'.rowadr c = ∑ c' ∈ range c, nget out'.rownnz c' ∧
+        (∀ r, r < nr → denseRaw out'.rownnz out'.rowadr out'.colind out'.res c r = denseOf p mat r c) ∧
+        (∀ k, k < nget out'.rownnz c → nget out'.colind (nget out'.rowadr c + k) < nr) ∧
+        (∀ k k', k < k' → k' < nget out'.rownnz c →
+          nget out'.colind (nget out'.rowadr c + k) ≤ nget out'.colind (nget out'.rowadr c + k')) := by
+  obtain ⟨out', h1, h2⟩ := transposeSparse_spec p mat hnr hnc hoff hcapT out
+  refine ⟨out', h1, ?_⟩
+  intro c hc
+  obtain ⟨a1, a2, a3, a4, a5⟩ := h2 c hc
+  refine ⟨?_, ?_, ?_, ?_⟩
+  · rw [a2]
+    unfold trStart
+    apply Finset.sum_congr rfl
+    intro c' hc'; simp at hc'
+    exact ((h2 c' (by omega)).1).symm
+  · intro r hr; rw [a3 r, if_pos hr]
+  · intro k hk; rw [a2]; exact a4 k (by rw [← a1]; exact hk)
+  · intro k k' hkk hk'; rw [a2]; exact a5 k k' hkk (by rw [← a1]; exact hk')
+
+/-- non-vacuity of the pattern hypotheses (`Pat`, `rowadr[0] = 0`, address order, distinct columns, capacity) -/
+def exPat : Pat 2 2 4 where
+  rownnz := #v[2, 1]
+  rowadr := #v[0, 3]
+  colind := #v[0, 1, 7, 1]
+  hrow := by decide
+  hcol := by decide
+
+example : nget exPat.rowadr 0 = 0 ∧
+    (∀ r, r + 1 < 2 → nget exPat.rowadr r + nget exPat.rownnz r ≤ nget exPat.rowadr (r + 1)) ∧
+    NodupRows exPat ∧ ∑ r ∈ range 2, nget exPat.rownnz r ≤ 3 := by
+  refine ⟨by decide, ?_, ?_, by decide⟩
+  · intro r hr
+    have : r = 0 := by omega
+    subst this; decide
+  · intro r k k' hk hk' h
+    have hr : r = 0 ∨ r = 1 ∨ 2 ≤ r := by omega
+    rcases hr with rfl | rfl | hr
+    · have h1 : nget exPat.rownnz 0 = 2 := by decide
+      rw [h1] at hk hk'
+      have : (k = 0 ∨ k = 1) ∧ (k' = 0 ∨ k' = 1) := by omega
+      rcases this with ⟨rfl | rfl, rfl | rfl⟩ <;> first | rfl | (exfalso; revert h; decide)
+    · have h1 : nget exPat.rownnz 1 = 1 := by decide
+      rw [h1] at hk hk'
+      omega
+    · have h1 : nget exPat.rownnz r = 0 := by unfold nget; simp [show ¬ r < 2 by omega]
+      rw [h1] at hk; omega
 
 /-! ### certificate theorems for the iterative routines
 
